@@ -203,6 +203,11 @@ func main() {
 	_ = seed
 	var ran []*harnessCfg
 	for _, h := range cc.Harnesses {
+		if h.TimeoutS == 0 && *tier == "quick" {
+			// a quick-tier harness that is still exploring after 10 minutes is reported as
+			// inconclusive (a changed implementation can make symbolic strings explode)
+			h.TimeoutS = 600
+		}
 		h.defaults()
 		if h.Tier != "" && h.Tier != *tier {
 			continue
